@@ -5,6 +5,7 @@ CONSTANTS
   Sizes = {}
   KvPool <- KvPoolFull
   TokPool <- TokPoolFull
+  MixPool <- MixPoolFull
   Extra <- Three
   GFirst = TRUE
   SelDet = TRUE
